@@ -122,10 +122,13 @@ package defers
 // pending work. A flag that is set when the propagation to the successors of the
 // current block ends (it may have been raised by that very propagation -- a block can
 // be its own successor) is still set when the iteration for the block ends: nothing
-// clears pending work after it was recorded. (bk is an arbitrary block index.)
+// clears pending work after it was recorded (bk is an arbitrary block index); and the
+// fixpoint loop is left only when no block of the traversal order is pending.
 //@ func AnalyzeFunction
 //@   property C16
 //@   option havoc:*
 //@   ghost bk int
 //@   requires fn != nil
+//@   loop 3 invariant idle: !iterationChanged ==> forall j int :: 0 <= j && j < iter(3) ==> !dataflowBlockChanged[blocks[j].Index]
+//@   loop 2 exit fixpoint_reached: forall j int :: 0 <= j && j < len(blocks) ==> !dataflowBlockChanged[blocks[j].Index]
 //@   loop 3 body pending_work_kept: passed(5) && 0 <= bk && bk < len(dataflowBlockChanged) && atexit(5, dataflowBlockChanged[bk]) ==> dataflowBlockChanged[bk]
